@@ -11,6 +11,13 @@
 (*         Obligation: f.head \in Heads(m) and the payload descriptors     *)
 (*         agree.  A piece for an already served request may be answered   *)
 (*         by a reject frame (Wire!Emitted).                               *)
+(*  Cut    FAULT (Wire!SendCut): the connection broke while the real       *)
+(*         writer handed the frame of message m to the transport: the      *)
+(*         frame had f.n bytes, the transport took the first f.k < f.n of  *)
+(*         them (conn.Write returned f.k and an error); f.part = the       *)
+(*         header bytes among those.  Obligation: the frame is one of m    *)
+(*         (or the reject of a duplicate request) as far as it went; the   *)
+(*         expected upload total grows by the f.k - 13 block bytes taken.  *)
 (*  End    number of frames cut, bytes left over, upload total reported by *)
 (*         BlockUploaded -- compared with wr.upl.                          *)
 (*  Read   bytes Encode(m1) .. Encode(mk) (heads printed by TLC from       *)
@@ -67,14 +74,33 @@ TrSend ==
            isPiece  == m.k = "piece" /\ ~asReject /\ f.present
        IN /\ wr' = [upl |-> wr.upl + (IF isPiece THEN PLen(m) ELSE 0),
                     served |-> IF isPiece THEN wr.served \cup {ReqOf(m)} ELSE wr.served,
-                    log |-> <<>>]
+                    log |-> <<>>, cut |-> wr.cut]
           /\ viol' = IF asReject THEN "" ELSE v
+    /\ UNCHANGED <<script, ns, net, rd, tm>>
+    /\ l' = l + 1
+
+\* the first f.k bytes of a frame of f.n bytes of message x, as far as its header is concerned
+\* (bs = the header bytes the driver cut out: f.part by the payload length of the input message, f.all for small frames)
+CutOk(x, f, bs) == \E h \in Heads(x) : /\ f.n = Len(h) + PLen(x) /\ f.k < f.n
+                                        /\ bs = SubSeq(h, 1, IF f.k < Len(h) THEN f.k ELSE Len(h))
+
+TrCut ==
+    /\ Ev.op = "Cut"
+    /\ ~Broken(wr)
+    /\ LET m   == CanonJ(Ev.m)
+           f   == Ev.w
+           asReject == IsDup(wr, m) /\ ~CutOk(m, f, f.part) /\ CutOk(RejectOf(m), f, f.all)
+           x   == IF asReject THEN RejectOf(m) ELSE m
+       IN /\ wr' = [upl |-> wr.upl + PayloadTaken(x, f.k),
+                    served |-> IF x.k = "piece" THEN wr.served \cup {ReqOf(x)} ELSE wr.served,
+                    log |-> <<>>, cut |-> f.k]
+          /\ viol' = IF asReject \/ CutOk(m, f, f.part) THEN "" ELSE "C11.frame"
     /\ UNCHANGED <<script, ns, net, rd, tm>>
     /\ l' = l + 1
 
 TrEnd ==
     /\ Ev.op = "End"
-    /\ viol' = IF Ev.leftover # 0 \/ Ev.frames # Ev.sent THEN "C11.frame"
+    /\ viol' = IF Ev.leftover # (IF Broken(wr) THEN wr.cut ELSE 0) \/ Ev.frames # Ev.sent THEN "C11.frame"
                ELSE IF Ev.upl # wr.upl \/ Ev.wirepl # Ev.upl THEN "C11.upcount"
                ELSE ""
     /\ UNCHANGED vars
@@ -102,7 +128,7 @@ TrRead ==
 
 TraceNext ==
     /\ l <= Len(Trace)
-    /\ (TrConn \/ TrSend \/ TrEnd \/ TrRead)
+    /\ (TrConn \/ TrSend \/ TrCut \/ TrEnd \/ TrRead)
 
 TraceSpec == TraceInit /\ [][TraceNext]_tvars
 
